@@ -5,6 +5,7 @@ func init() {
 		"model.NameValidationScheme is process-global: cases run sequentially in one process, each sets and restores it",
 		"a name that ends with 'total' or the unit word without a delimiter or in another letter case may or may not count as carrying the suffix (both namings accepted); a counter literally named 'total' is only required to be legal and to end with _total",
 		"registries Prometheus rejects by design (instruments sharing a family, inconsistent key sets, attribute sets that alias after the collision merge) are only checked for 'no panic' and legal names",
+		"exponential histogram points: scale > 8 is expected at schema 8 with neighbours merged; scale < -4 has no Prometheus schema and nothing is asserted for such a point",
 		"concurrent scrapes are checked for crash/race freedom, legal names, cumulative shape and monotone counters; exact values only at quiescence; schedules are sampled, not enumerated",
 	))
 }
